@@ -49,7 +49,7 @@ import random
 from typing import Any
 
 from checks import common
-from simkit import deploy, sched
+from simkit import deploy, sched, seams
 
 # kept-percentile goes beyond the property as stated (it is the docstring reading of
 # PercentilePruner); it is off unless VERIF_C16_EXTRA=1 so that the check never alarms on a
@@ -153,7 +153,10 @@ def _gen_worker_ops(rng: random.Random, hero: bool, big: bool) -> list[dict]:
         nrep = rng.randint(1, 9 if big else 7)
         consecutive = rng.random() < 0.5
         for _ in range(nrep):
-            ops.append({"op": "report", "step": step, "v": _gen_value(rng, hero)})
+            rop: dict = {"op": "report", "step": step, "v": _gen_value(rng, hero)}
+            if rng.random() < 0.08:
+                rop["fail_write"] = True  # the storage write of this report fails once; the worker reports again
+            ops.append(rop)
             r = rng.random()
             if r < 0.85:
                 ops.append({"op": "sp", "obey": rng.random() < 0.85})
@@ -605,6 +608,8 @@ def _run(plan: dict, sim: sched.Sim, ch: sched.Chooser, dep: deploy.Deployment) 
                 return "n_brackets=%r but %d bracket pruners, budgets=%r, total budget=%r" % (hb._n_brackets, len(hb._pruners), hb._trial_allocation_budgets, hb._total_trial_allocation_budget)
         return None
 
+    failed_writes: dict[int, set] = {}
+
     def call(what: str, num: int, fn: Any, *a: Any, **k: Any) -> Any:
         """One API call of a worker.  Storage errors end the run as inconclusive; an exception
         raised from inside optuna/pruners is a verdict; anything else is a harness error."""
@@ -701,6 +706,25 @@ def _run(plan: dict, sim: sched.Sim, ch: sched.Chooser, dep: deploy.Deployment) 
                             sim.count("report_out_of_order")
                         G["reports"] += 1
                         sim.note("report", w, num, step, repr(v))
+                        if op.get("fail_write") and step not in failed_writes.setdefault(num, set()):
+                            # connection lost during the write of this report: report() raises,
+                            # nothing is stored; the objective then reports the value again
+                            from optuna.exceptions import StorageInternalError as _SIE
+
+                            failed_writes[num].add(step)
+
+                            def _boom(*a_: Any, **k_: Any) -> None:
+                                raise _SIE("injected: connection lost while storing an intermediate value")
+
+                            tgt = cur.storage
+                            tgt.set_trial_intermediate_value = _boom
+                            try:
+                                try:
+                                    cur.report(v, step)
+                                except _SIE:
+                                    sim.count("fault:report_write_fails")
+                            finally:
+                                tgt.__dict__.pop("set_trial_intermediate_value", None)
                         call("report", num, cur.report, v, step)
                     elif k == "sp":
                         infl, ep = G["complete_inflight"], G["epoch"]
@@ -749,6 +773,20 @@ def _run(plan: dict, sim: sched.Sim, ch: sched.Chooser, dep: deploy.Deployment) 
     for n, w in sorted(plan["workers"].items()):
         tasks.append(sim.spawn(procs[w["proc"]], n, make_task(n, w["ops"])))
     status = sim.run() if tasks else "ok"
+    if status == "ok" and G["verdict"] is None and G["abort"] is None and failed_writes:
+        # every value whose report() call returned must be in the storage (first report of a
+        # step wins), also when an earlier attempt to store it had failed
+        seams.set_sim(sim, dep.fs)
+        try:
+            stored = {tr.number: tr.intermediate_values for tr in study0.get_trials(deepcopy=False)}
+        except Exception:  # noqa
+            stored = {}
+        for num_, steps_ in sorted(failed_writes.items()):
+            for step_ in sorted(steps_):
+                want = reg.get(num_, {}).get("iv", {}).get(step_)
+                got = stored.get(num_, {}).get(step_)
+                if want is not None and num_ in stored and not (got == want or (_isnan(want) and got is not None and _isnan(got))):
+                    fail("report-lost", "a reported value is not in the storage", "trial %d step %d: report(%r) returned normally after an earlier attempt had failed with a storage error, but the storage holds %r" % (num_, step_, want, got))
     extra = {"should_prune_calls": G["sp"], "should_prune_true": G["sp_true"], "reports": G["reports"], "pruner:" + pname: 1}
     nontrivial = sim.switches > 0 and G["sp"] >= 3
     if G["verdict"] is not None:
